@@ -273,10 +273,16 @@ def lmethod(rc: RuleCtx, rule_range: Optional[str], rule_crit: Optional[str], ru
     fr.block(pre, env, TRUE)
     # roles: the split index is the first component of the returned tuple; the running error is the variable
     # the candidate error is compared with; the total length is x[-1] - x[0]
-    rets_ = [st for st in post if isinstance(st, ast.Return)]
-    if len(rets_) != 1 or not isinstance(rets_[0].value, ast.Tuple) or not isinstance(rets_[0].value.elts[0], ast.Name):
-        raise AnalysisError("lmethod.get_knee: expected `return (index, ...)`")
-    iname = rets_[0].value.elts[0].id
+    fr_r = Frame(ev, fg, 0)
+    penv_r = {nme: (ev.symbol(nme) if not isinstance(v, Vec) else v) for nme, v in env.items()}
+    fr_r.block(post, penv_r, TRUE)
+    iname = None
+    if len(fr_r.returns) == 1 and isinstance(fr_r.returns[0][1], Vec) and fr_r.returns[0][1].items and isinstance(fr_r.returns[0][1].items[0], Rat):
+        a0 = single_atom(fr_r.returns[0][1].items[0])
+        if a0 is not None and a0.kind == "sym" and a0.name in env:
+            iname = a0.name
+    if iname is None:
+        raise AnalysisError("lmethod.get_knee: expected a returned tuple whose first component is the split index variable")
     idx0 = env.get(iname)
     ra = range_args(loop)
     lo = fr.expr(ra[0], env) if ra and len(ra) == 2 else None
